@@ -68,11 +68,21 @@ TYPES = [
     dict(rust='Segments', file=S + 'bezpath.rs', coq='(list (PathEl T) * option (Point T * Point T))%type', destruct=False,
          ctor='(fun tr_e tr_s => (tr_e, tr_s))',
          fields=[['elements', '(fun tr_s => fst tr_s)', 'Vec<PathEl>'], ['start_last', '(fun tr_s => snd tr_s)']]),
+    # the SVG lexer: (data as bytes, ix, last_pt); the model works on the remaining suffix `skipn ix data`
+    dict(rust='SvgParseError', file=S + 'svg.rs', coq='KV.Svg.SvgErr',
+         variants=[['Wrong', 'KV.Svg.Wrong'], ['UnexpectedEof', 'KV.Svg.UnexpectedEof'], ['UnknownCommand', 'KV.Svg.UnknownCommand'], ['UninitializedPath', 'KV.Svg.UninitializedPath']]),
+    dict(rust='SvgLexer', file=S + 'svg.rs', coq='(list Z * nat * Point T)%type', destruct=False, usize_as_nat=True,
+         ctor='(fun tr_d tr_i tr_p => (tr_d, tr_i, tr_p))',
+         fields=[['data', '(fun tr_s => fst (fst tr_s))', 'Vec<u8>'], ['ix', '(fun tr_s => snd (fst tr_s))'], ['last_pt', '(fun tr_s => snd tr_s)']],
+         ambient_binders=[['num_of_', 'list Z -> option T']]),
+    dict(rust='SvgArc', file=S + 'svg.rs', coq='@KV.Svg.SvgArc T', ctor='KV.Svg.mkSvgArc',
+         fields=[['from', 'KV.Svg.sa_from'], ['to', 'KV.Svg.sa_to'], ['radii', 'KV.Svg.sa_radii'], ['x_rotation', 'KV.Svg.sa_x_rotation'],
+                 ['large_arc', 'KV.Svg.sa_large_arc'], ['sweep', 'KV.Svg.sa_sweep']]),
     dict(rust='TranslateScale', file=S + 'translate_scale.rs', coq='TranslateScale T', ctor='mkTS',
          fields=[['translation', 'ts_translation'], ['scale', 'ts_scale']]),
 ]
 
-IMPORTS = ['Scalar', 'Geom', 'Rect', 'Curves', 'Path', 'Affine', 'ShapeTypes', 'AffineOps', 'Solvers', 'Extrema', 'Flatten', 'ToQuads', 'Nearest', 'Winding', 'ShapeQueries', 'ShapePaths', 'Arclen', 'PathOps', 'Stroke', 'Dash']
+IMPORTS = ['Scalar', 'Geom', 'Rect', 'Curves', 'Path', 'Affine', 'ShapeTypes', 'AffineOps', 'Solvers', 'Extrema', 'Flatten', 'ToQuads', 'Nearest', 'Winding', 'ShapeQueries', 'ShapePaths', 'Arclen', 'PathOps', 'Stroke', 'Dash', 'Svg']
 
 FUNS = []
 
@@ -114,6 +124,7 @@ F('vec2.rs', 'Vec2', 'to_size', 'vec2_to_size', G + 'vec2_to_size')
 F('vec2.rs', 'Vec2', 'dot', 'v_dot', G + 'v_dot')
 F('vec2.rs', 'Vec2', 'cross', 'v_cross', G + 'v_cross')
 F('vec2.rs', 'Vec2', 'hypot', 'v_hypot', G + 'v_hypot')
+F('vec2.rs', 'Vec2', 'atan2', 'v_atan2')
 F('vec2.rs', 'Vec2', 'length', 'v_length', G + 'v_hypot')
 F('vec2.rs', 'Vec2', 'hypot2', 'v_hypot2', G + 'v_hypot2')
 F('vec2.rs', 'Vec2', 'length_squared', 'v_length_squared', G + 'v_hypot2')
@@ -457,7 +468,47 @@ F('bezpath.rs', None, 'reverse_subpath', 'reverse_subpath', PO + 'reverse_subpat
 F('bezpath.rs', 'BezPath', 'reverse_subpaths', 'reverse_subpaths', PO + 'reverse_subpaths', usize_as_nat=True, bridge='PathOps_bridge', via='simulation',
   stmt='match KV.PathOps.reverse_subpaths $0 with Some tr_r => $G = tr_r | None => True end')
 F('bezpath.rs', 'BezPath', 'from_vec', 'bezpath_from_vec')
+F('bezpath.rs', 'BezPath', 'new', 'bezpath_new')
 F('svg.rs', 'BezPath', 'from_path_segments', 'from_path_segments', PO + 'from_path_segments', bridge='PathOps_bridge')
+# ---------------------------------------------------------------- the SVG lexer by simulation (C16)
+SVG = 'KV.Svg.'
+LX = "SvgLexer<'_>"
+FUEL = '(S (length (fst (fst $0))))'
+SB = 'KVBridge.Svg_bridge.'
+F('svg.rs', LX, 'get_byte', 'lex_get_byte')
+F('svg.rs', LX, 'unget', 'lex_unget')
+F('svg.rs', LX, 'skip_ws', 'lex_skip_ws', SVG + 'skip_ws', fuel=FUEL, call_gen=True, bridge='Svg_bridge', via='simulation',
+  stmt=SB + 'sim_unit (KV.Svg.skip_ws (' + SB + 'abs $0)) $0 $G')
+F('svg.rs', LX, 'opt_comma', 'lex_opt_comma', SVG + 'opt_comma', call_gen=True, bridge='Svg_bridge', via='simulation',
+  stmt=SB + 'sim_unit (KV.Svg.opt_comma (' + SB + 'abs $0)) $0 $G')
+F('svg.rs', LX, 'get_cmd', 'lex_get_cmd', SVG + 'get_cmd', call_gen=True, bridge='Svg_bridge', via='simulation',
+  stmt=SB + 'sim_opt (KV.Svg.get_cmd true $1 (' + SB + 'abs $0)) $0 $G')
+F('svg.rs', LX, 'get_flag', 'lex_get_flag', SVG + 'get_flag', call_gen=True, bridge='Svg_bridge', via='simulation',
+  stmt=SB + 'sim_res (KV.Svg.get_flag (' + SB + 'abs $0)) $0 $G')
+F('svg.rs', LX, 'get_number', 'lex_get_number', SVG + 'get_number', fuel=FUEL, call_gen=True, bridge='Svg_bridge', via='simulation',
+  stmt=SB + 'sim_res (KV.Svg.get_number num_of_ (' + SB + 'abs $0)) $0 $G')
+F('svg.rs', LX, 'get_number_pair', 'lex_get_number_pair', SVG + 'get_number_pair', call_gen=True, bridge='Svg_bridge', via='simulation',
+  stmt=SB + 'sim_res (KV.Svg.get_number_pair num_of_ (' + SB + 'abs $0)) $0 $G')
+F('svg.rs', LX, 'get_maybe_relative', 'lex_get_maybe_relative', SVG + 'get_maybe_relative', call_gen=True, bridge='Svg_bridge', via='simulation',
+  stmt=SB + 'sim_res (KV.Svg.get_maybe_relative num_of_ (snd $0) $1 (' + SB + 'abs $0)) $0 $G')
+# the body of the command loop of BezPath::from_svg as a step function over
+# (lexer, path, last_cmd, last_ctrl, first_pt, implicit_moveto) for command byte c, against the model's step_cmd (fixed variant)
+FREM = [['frem_', 'T -> T -> T']]
+# Arc::from_svg_arc itself: f64 `%` is the parameter frem_; the model writes `- f1` for the literal `-1.0`
+F('svg.rs', 'SvgArc', 'is_straight_line', 'svg_arc_is_straight_line', SVG + 'is_straight_line')
+F('svg.rs', 'Arc', 'from_svg_arc', 'arc_from_svg_arc', SVG + 'from_svg_arc', extra_binders=FREM, neg_literal_op=True, bridge='Svg_bridge',
+  model_app='KV.Svg.from_svg_arc frem_ true $0', call='KV.Svg.from_svg_arc frem_ true $0')
+F('arc.rs', 'Arc', 'to_cubic_beziers', 'arc_to_cubic_beziers', SVG + 'arc_cubics', extern=True, callback_append='KV.Svg.arc_cubics $0 $1')
+F('svg.rs', 'BezPath', 'from_svg', 'from_svg_step', SVG + 'step_cmd', bridge='Svg_bridge', via='simulation', extra_binders=FREM,
+  while_body_state=[['lexer', 'SvgLexer'], ['path', 'BezPath'], ['last_cmd', 'u8'], ['last_ctrl', 'Option<Point>'], ['first_pt', 'Point'], ['implicit_moveto', 'Option<Point>']],
+  while_body_vars=[['c', 'u8']],
+  stmt=SB + 'sim_step num_of_ frem_ $0 $1 $2 $3 $4 $5 $6 $G')
+# the whole function: initialisation, the `while let` loop with the model's fuel (one iteration = get_cmd + the step function
+# above, not translated a second time), `Ok(path)`; against the model's from_svg wherever that does not run out of fuel
+F('svg.rs', LX, 'new', 'lex_new')
+F('svg.rs', 'BezPath', 'from_svg', 'from_svg', SVG + 'from_svg', bridge='Svg_bridge', via='simulation',
+  extra_binders=[['num_of_', 'list Z -> option T']] + FREM, fuel='(S (length $0))', while_step='from_svg_step',
+  stmt=SB + 'sim_from_svg num_of_ frem_ $0 $G')
 # ---------------------------------------------------------------- winding (C01)
 F('bezpath.rs', 'PathSeg', 'winding_inner', 'winding_inner', WD + 'winding_inner', bridge='Winding_bridge')
 F('bezpath.rs', 'PathSeg', 'winding', 'seg_winding', WD + 'seg_winding', bridge='Winding_bridge')
@@ -554,13 +605,18 @@ def main():
         comment='kurbo2coq spec; regenerate with tools/kurbo2coq/mkspec.py. model = hand-model constant the generated definition must be definitionally equal to (null: helper without a model counterpart, inlined by reflexivity into its users).',
         imports=IMPORTS,
         derived_eq={'Point': 'KV.Geom.pt_eqb'},
-        consts={'PI': 'fpi', 'sort_by_partial_cmp': 'KV.Extrema.sort_asc'},
-        defaults={'Point': '(mkPoint f0 f0)', 'Rect': '(mkRect f0 f0 f0 f0)'},
+        consts={'PI': 'fpi', 'sort_by_partial_cmp': 'KV.Extrema.sort_asc', 'str::parse::<f64>': 'num_of_',
+                'u8::is_ascii_digit': 'KV.Svg.is_digit', 'u8::is_ascii_lowercase': 'KV.Svg.is_lower', 'u8::is_ascii_uppercase': 'KV.Svg.is_upper'},
+        results={'SvgParseError': ['KV.Svg.res', 'KV.Svg.Ok', 'KV.Svg.Err']},
+        defaults={'Point': '(mkPoint f0 f0)', 'Rect': '(mkRect f0 f0 f0 f0)', 'BezPath': '(@nil (PathEl T))'},
         panic_defaults={'f64': 'f0', 'Point': '(mkPoint f0 f0)', 'PathEl': '(MoveTo (mkPoint f0 f0))'},
         types=TYPES,
         functions=FUNS,
     )
     out = os.path.join(VERIF, 'props', 'translation.json')
+    for a in sys.argv[1:]:
+        if a.startswith('--out='):
+            out = a[6:]
     text = json.dumps(spec, indent=1)
     # one function per line keeps the file reviewable
     head = dict(spec)
